@@ -5,7 +5,8 @@
 //	dec <3|4|5> <hex>     ReadPacket with Reader.version preset; canonical dump, consumed, TotalBytes, Pack, re-decode
 //	vbi <hex>             EncodeRemainLength on the bytes (the function that READS a variable byte integer)
 //	evbi <n>              DecodeRemainLength (the function that WRITES one)
-//	vt <hex> / vf <hex> / v5 <hex> / u8 <hex>   ValidTopicName(true,·) / ValidTopicFilter(true,·) / ValidV5Topic / ValidUTF8
+//	vt|vf|v5 x<hex>       ValidUTF8 && ValidTopicName(true,·) | ValidTopicFilter(true,·) | ValidV5Topic  (what the decoders apply)
+//	rvt|rvf|rv5 x<hex>    the bare helpers; u8 x<hex> = ValidUTF8
 //	msg <3|4|5> <hex>     decode a PUBLISH, MessageFromPublish, TotalBytes, MessageToPublish, Pack
 //	mk <ver> <qos> <retain> <dup> <pid> <topic> <payload> <ct> <cd> <expiry> <pf> <rt> <subids> <user>
 //	                      build a gmqtt.Message directly (byte fields: - = nil, x<hex> = non-nil), TotalBytes vs Pack
@@ -287,7 +288,7 @@ func (d *codecDrv) Step(line string) string {
 			return "bad-op"
 		}
 		ver, ok := verOf(f[1])
-		data, err := hex.DecodeString(f[2])
+		data, err := unhex(f[2])
 		if !ok || err != nil {
 			return "bad-op"
 		}
@@ -308,7 +309,6 @@ func (d *codecDrv) Step(line string) string {
 			return msgReport(m, ver)
 		default:
 			var m0, m1 runtime.MemStats
-			runtime.GC()
 			runtime.ReadMemStats(&m0)
 			_, err, _ := readOne(ver, data)
 			runtime.ReadMemStats(&m1)
@@ -320,7 +320,7 @@ func (d *codecDrv) Step(line string) string {
 			// bufio (2 KiB) + reader + packet structs: a fixed overhead; everything else should be O(len)
 			cls := "proportional"
 			if delta > uint64(4*len(data)+16384) {
-				cls = fmt.Sprintf("excess:2^%d", bitlen(delta))
+				cls = "excess"
 			}
 			return res + " alloc=" + cls
 		}
@@ -328,7 +328,7 @@ func (d *codecDrv) Step(line string) string {
 		if len(f) != 2 {
 			return "bad-op"
 		}
-		data, err := hex.DecodeString(f[1])
+		data, err := unhex(f[1])
 		if err != nil {
 			return "bad-op"
 		}
@@ -354,12 +354,12 @@ func (d *codecDrv) Step(line string) string {
 			}
 			parts = append(parts, fmt.Sprintf("%s%s@%d", name, v, after))
 		}
-		return "stream " + strings.Join(parts, " ")
+		return strings.TrimSpace("stream " + strings.Join(parts, " "))
 	case "vbi":
 		if len(f) != 2 {
 			return "bad-op"
 		}
-		data, err := hex.DecodeString(f[1])
+		data, err := unhex(f[1])
 		if err != nil {
 			return "bad-op"
 		}
@@ -382,7 +382,7 @@ func (d *codecDrv) Step(line string) string {
 			return "err:" + errClass(e)
 		}
 		return "ok " + hex.EncodeToString(b)
-	case "vt", "vf", "v5", "u8":
+	case "vt", "vf", "v5", "u8", "rvt", "rvf", "rv5":
 		if len(f) != 2 {
 			return "bad-op"
 		}
@@ -391,12 +391,20 @@ func (d *codecDrv) Step(line string) string {
 			return "bad-op"
 		}
 		var r bool
+		// vt/vf/v5: what the decoders apply to a topic field: readUTF8String(true,…) = ValidUTF8, then the topic check.
+		// rvt/rvf/rv5: the bare helper functions.
 		switch f[0] {
 		case "vt":
-			r = packets.ValidTopicName(true, data)
+			r = packets.ValidUTF8(data) && packets.ValidTopicName(true, data)
 		case "vf":
-			r = packets.ValidTopicFilter(true, data)
+			r = packets.ValidUTF8(data) && packets.ValidTopicFilter(true, data)
 		case "v5":
+			r = packets.ValidUTF8(data) && packets.ValidV5Topic(data)
+		case "rvt":
+			r = packets.ValidTopicName(true, data)
+		case "rvf":
+			r = packets.ValidTopicFilter(true, data)
+		case "rv5":
 			r = packets.ValidV5Topic(data)
 		case "u8":
 			r = packets.ValidUTF8(data)
@@ -436,11 +444,10 @@ func (d *codecDrv) Step(line string) string {
 	return "bad-op"
 }
 
-func bitlen(x uint64) int {
-	n := 0
-	for x > 1 {
-		x >>= 1
-		n++
+// unhex: "-" is the empty byte string
+func unhex(s string) ([]byte, error) {
+	if s == "-" {
+		return []byte{}, nil
 	}
-	return n
+	return hex.DecodeString(s)
 }
